@@ -47,21 +47,24 @@ JudgeLang(obs, sent, k) ==
        ELSE IF o.out = 1 /\ sent /\ o.must THEN o.cfg \o ":rejected-sentence"
        ELSE JudgeLang(obs, sent, k + 1)
 
-RECURSIVE JudgeObs04(_, _, _, _, _, _)
-JudgeObs04(exp, trees, cyclic, vm, X, k) ==
+\* exact: the grammar is written in plain BNF (no optional whose unmatched spelling could collide): "none missing" is then
+\* compared on the trees themselves, empty nodes included - x() and x(y()) are two derivations
+RECURSIVE JudgeObs04(_, _, _, _, _, _, _)
+JudgeObs04(exp, trees, cyclic, vm, X, exact, k) ==
   IF k > Len(exp) THEN "ok"
   ELSE LET o == exp[k] IN
        IF o.out # 0 THEN (IF o.out = 2 THEN o.cfg \o ":unexpected-exception"
-                          ELSE IF trees # {} /\ ~cyclic THEN o.cfg \o ":rejected-sentence" ELSE JudgeObs04(exp, trees, cyclic, vm, X, k + 1))
+                          ELSE IF trees # {} /\ ~cyclic THEN o.cfg \o ":rejected-sentence" ELSE JudgeObs04(exp, trees, cyclic, vm, X, exact, k + 1))
        ELSE LET got == Expand(o.tree) IN
             IF ~(got \subseteq trees) THEN o.cfg \o ":tree-that-is-not-a-derivation"
             \* completeness up to the spelling of an unmatched optional: alternatives of a rule that expand to the
             \* same (empty) symbol sequence are one production, kept in its first spelling (DESIGN 6/C03 (a))
-            ELSE IF ~cyclic /\ {StripPos(CanonX(t, X), vm) : t \in got} # {StripPos(CanonX(t, X), vm) : t \in trees} THEN o.cfg \o ":derivation-missing"
+            ELSE IF ~cyclic /\ exact /\ {StripPos(t, vm) : t \in got} # {StripPos(t, vm) : t \in trees} THEN o.cfg \o ":derivation-missing"
+            ELSE IF ~cyclic /\ ~exact /\ {StripPos(CanonX(t, X), vm) : t \in got} # {StripPos(CanonX(t, X), vm) : t \in trees} THEN o.cfg \o ":derivation-missing"
             \* lark's own expansion utility must agree with the expansion wherever it is run
             ELSE IF o.collrun /\ ~o.collok THEN o.cfg \o ":CollapseAmbiguities-raises"
             ELSE IF o.collrun /\ {o.coll[q] : q \in DOMAIN o.coll} # got THEN o.cfg \o ":CollapseAmbiguities-differs-from-expansion"
-            ELSE JudgeObs04(exp, trees, cyclic, vm, X, k + 1)
+            ELSE JudgeObs04(exp, trees, cyclic, vm, X, exact, k + 1)
 
 \* ---- plain BNF grammars, cyclic ones included: every tree of the expansion is a derivation tree of the input ----
 RECURSIVE LeavesOf(_), ValidNode(_, _, _)
@@ -175,7 +178,7 @@ Next ==
               ELSE IF Which = "C20" /\ c.cyclic THEN JudgeBnf20(c.G, inp.exp, inp.w, 1)
               ELSE IF Which = "C20" THEN JudgeObs20(inp.exp, trees, c.cyclic, inp.vmap, 1)
               ELSE IF Which = "C04" /\ c.cyclic THEN JudgeBnf(c.G, inp.exp, inp.w, 1)
-              ELSE IF Which = "C04" THEN JudgeObs04(inp.exp, trees, c.cyclic, inp.vmap, {c.G.rules[r].name : r \in {q \in DOMAIN c.G.rules : c.G.rules[q].expand1}}, 1)
+              ELSE IF Which = "C04" THEN JudgeObs04(inp.exp, trees, c.cyclic, inp.vmap, {c.G.rules[r].name : r \in {q \in DOMAIN c.G.rules : c.G.rules[q].expand1}}, c.exact, 1)
               ELSE IF Which = "LANG" THEN JudgeLang(inp.obs, trees # {}, 1)
               ELSE JudgeObs03(inp.obs, trees, trees # {}, 1)
      IN verdict' = Verdict(tid, ii + 1, v = "ok", v, IF c.cyclic THEN -1 ELSE Cardinality(trees))
